@@ -4,7 +4,8 @@ Proof (partial by design): GardenVerif.Props.C27 — stop_is_prefix / stop_at_fi
 error_only_before_completion over `stepWith d` (Machine.step and the test-body step with assert):
 the run with `stop_at_expr_id = id` is step for step the run without it up to the FIRST completion
 of node id, where it returns the top of the value stack; errors are errors of the other run.
-`mark_used_preserves` is NOT proved (see Props/C27.lean); that half rests on the direct oracle below.
+`mark_used_preserves` is proved only locally (the observed node's own steps, simple node kinds: one extra
+value at completion, which is the value reported); the rest of that half rests on the direct oracle below.
 
 Tie: hook op `evalupto <src> <offset>` of `garden verif` (src/verif_runner.rs: exactly what
 `garden reftest-eval-up-to` does, with the offset given instead of a caret comment, reporting the
@@ -31,6 +32,7 @@ from .common import hexs, unhex, pmap
 LEAN_MODULES = ["GardenVerif.Props.C27"]
 
 OBS_FUN = 'fun __obs(x) {\n  println("OBS:" ^ string_repr(x))\n  x\n}\n'
+SIMPLE_KINDS = ("int", "str", "var", "lambda", "binop", "let", "assign", "update", "list", "tuple")
 VALUE_KINDS = ("int", "str", "var", "binop", "call", "list", "tuple", "if", "match", "paren")
 
 
@@ -118,7 +120,7 @@ def run(ctx):
             model_lines.append("ping")
     model = ctx.model_batch(model_lines, timeout=1200)
     kinds_hist = {}
-    n_cmp = n_unsup = n_value = n_error = n_noexpr = 0
+    n_cmp = n_unsup = n_value = n_error = n_noexpr = n_simple = n_stmt_pos = 0
     oracle_jobs = []
     for (pi, off), i, mr in zip(cases, impl, model):
         src = progs[pi]
@@ -145,6 +147,17 @@ def run(ctx):
                     ctx.fail("C27/not-marked-used", "the observed node %s is not marked value_is_used" % nid, **inp)
                 break
         kinds_hist[kind] = kinds_hist.get(kind, 0) + 1
+        # which flags does the marking change? (hypothesis of the `…_partial` theorems: for the Simple kinds
+        # only the observed node's own flag)
+        before = {nid: u for _, nid, u in NODE.findall(i["items"] or "")}
+        changed = sorted(nid for _, nid, u in NODE.findall(i["marked"] or "") if before.get(nid) != u)
+        if kind in SIMPLE_KINDS:
+            n_simple += 1
+            if any(nid != i["id"] for nid in changed):
+                ctx.disagree("markused", inp, None, changed, detail="marking a %s node changed the value_is_used flag of "
+                             "other nodes (the partial theorems assume it does not)" % kind)
+        if changed == [i["id"]]:
+            n_stmt_pos += 1
         # ---- model correspondence
         m = parse_ev(mr)
         if m["kind"] == "unsupported" or mr == "OK pong" or (mr or "").startswith("OK (evalupto (noitem)"):
@@ -193,6 +206,8 @@ def run(ctx):
     ctx.cov["answers"] = {"value": n_value, "error": n_error, "nothing": n_noexpr}
     ctx.cov["observed_node_kinds"] = kinds_hist
     ctx.cov["model_compared"] = n_cmp
+    ctx.cov["observed_nodes_of_simple_kind"] = n_simple
+    ctx.cov["observed_nodes_in_statement_position"] = n_stmt_pos
     ctx.cov["model_outside_fragment"] = n_unsup
 
     # ------------------------------------------------------------------ direct oracle: instrumented run
